@@ -210,7 +210,11 @@ def corner_corpus(start_id):
     add([("pub", "p", inner5.name, True), ("pub", "q", inner5.name, True)], derives=("Debug", "Clone", "PartialEq"), soa=("Debug", "Clone", "PartialEq"), nested=inner5,
         note="every field nested, the same inner type twice")
     inner6 = Shape(sid, f"CInner{sid}", [("pub", "x", "f32", False)], "pub", ["Debug"], ["Debug"], [], cls="corner-inner")
-    add([("pub", "w", inner6.name, True)], derives=("Debug",), soa=("Debug",), nested=inner6, note="one field, nested")
+    sh = add([("pub", "w", inner6.name, True)], derives=("Debug",), soa=("Debug",), nested=inner6, note="one field, nested; and a struct stamped out by macro_rules! with the nested type as a `ty` fragment")
+    # the type of a #[nested_soa] field that reaches the derive through a `$t:ty` fragment is wrapped in an invisible group
+    sh.extra = (f"macro_rules! stamp {{ ($name:ident, $payload:ty, $plain:ty) => {{\n    /// doc\n    #[derive(StructOfArray, Debug)]\n    #[soa_derive(Debug)]\n"
+                f"    pub struct $name {{\n        /// doc\n        pub id: $plain,\n        /// doc\n        #[nested_soa] pub payload: $payload,\n    }}\n}} }}\n"
+                f"stamp!(Stamped{sh.sid}, {inner6.name}, u16);\n/// the stamped struct has its SoA types\npub fn uses() -> usize {{ let v = Stamped{sh.sid}Vec::new(); v.len() + v.payload.len() }}")
     # several attributes of the same name on one kind: all of them arrive
     sh = add([("pub", "a", "u8", False), ("pub", "b", "String", False)], derives=("Debug",), soa=("Debug",),
              attrs=[("Vec", "cfg_attr(all(), derive(Clone))"), ("Vec", "cfg_attr(all(), derive(PartialEq))")], note="two cfg_attr on one kind")
